@@ -240,6 +240,9 @@ def install() -> Recorder:
         rec.tls.cur = st
         try:
             r = orig_q(g, es_l, allow_open_branches, allow_loops, vs_to_not_visit, allow_loop_edges)
+        except BaseException as e:  # noqa  (the search raised: the lookup section missed and no store section follows)
+            rec.ev("query_exc", gid, key, arg, ent["version"], type(e).__name__, st["sec_idx"], outer is not None)
+            raise
         finally:
             rec.tls.cur = outer
         hit = not st["computed"]
@@ -474,6 +477,26 @@ def do_call(sess: Session, call: dict) -> dict:
         return {"churned": True}
     if kind == "scrub":                     # diagnosis only
         return {"scrubbed": memo_scrub()}
+    if kind == "reset_antlr":               # diagnosis only: forget what the shared prediction caches of the generated parsers learnt
+        from antlr4.dfa.DFA import DFA
+        from antlr4.PredictionContext import PredictionContextCache
+        n = 0
+        import explorerscript.antlr.ExplorerScriptLexer as m1
+        import explorerscript.antlr.ExplorerScriptParser as m2
+        import explorerscript.antlr.SsbScriptLexer as m3
+        import explorerscript.antlr.SsbScriptParser as m4
+        for mod, nm in ((m1, "ExplorerScriptLexer"), (m2, "ExplorerScriptParser"), (m3, "SsbScriptLexer"), (m4, "SsbScriptParser")):
+            cls = getattr(mod, nm)
+            for i, ds in enumerate(cls.atn.decisionToState):
+                cls.decisionsToDFA[i] = DFA(ds, i)
+                n += 1
+            if hasattr(cls, "sharedContextCache"):
+                cls.sharedContextCache = PredictionContextCache()
+            for st in cls.atn.states:              # ATN.nextTokens caches its answer on the (class-level, shared) ATN states
+                if st is not None and getattr(st, "nextTokenWithinRule", None) is not None:
+                    st.nextTokenWithinRule = None
+                    n += 1
+        return {"reset": n}
     raise ValueError("unknown call kind " + kind)
 
 
@@ -589,3 +612,298 @@ def compiler_attr_facts(_: Any = None) -> dict:
                       and n.func.attr in ("update", "append", "extend", "clear") and isinstance(n.func.value, ast.Attribute)
                       and isinstance(n.func.value.value, ast.Name) and n.func.value.value.id == "self"})
     return {"init": sorted(set(init_attrs)), "top_of_compile": top, "assigned_in_compile": all_compile, "mutated_in_place": inplace}
+
+
+# ----------------------------------------------------------------------------------------------------------------------
+# 3. threads (C12)
+# ----------------------------------------------------------------------------------------------------------------------
+TRACED_REPO = ("graph_utils.py", "graph_minimizer.py", "ssb_decompiler.py", "explorerscript_reader.py", "macro.py",
+               os.path.join("compiler", "utils.py"), "ssb_compiler.py", "label_jump_to_resolver.py", "source_map.py")
+TRACED_ANTLR = (os.path.join("atn", "ParserATNSimulator.py"), os.path.join("atn", "LexerATNSimulator.py"), os.path.join("dfa", "DFA.py"),
+                os.path.join("dfa", "DFAState.py"), os.path.join("atn", "ATN.py"), os.path.join("error", "ErrorStrategy.py"),
+                "PredictionContext.py", os.path.join("atn", "ATNConfigSet.py"))
+
+
+class SchedBroken(Exception):
+    pass
+
+
+class Sched:
+    """Deterministic cooperative scheduler: exactly one worker thread runs at a time (it holds the token); at a yield point
+    (a traced line, a lock acquisition that would block, the end of a thread) the running thread hands the token to the
+    thread the PRNG (or the replayed switch list) names.  The schedule is the list of switches [yield-point number, thread]."""
+
+    def __init__(self, n: int, seed: int, p_switch: float, replay: list | None, wait_s: float = 30.0):
+        import random
+        self.cv = threading.Condition()
+        self.n = n
+        self.rnd = random.Random(seed)
+        self.p = p_switch
+        self.replay = list(replay) if replay is not None else None
+        self.rpos = 0
+        self.current = -1
+        self.alive = set(range(n))
+        self.blocked: set[int] = set()
+        self.switches: list[list[int]] = []
+        self.points = 0
+        self.broken: str | None = None
+        self.wait_s = wait_s
+        self.diverged = 0
+
+    # -- all methods below are called with self.cv held
+    def _pick(self, me: int, must_leave: bool) -> int:
+        runnable = sorted((self.alive - self.blocked) - ({me} if must_leave else set()))
+        if not runnable:
+            if must_leave and self.alive - {me}:
+                self.broken = "all remaining threads are blocked"
+            return me
+        if self.replay is not None:
+            if self.rpos < len(self.replay) and self.replay[self.rpos][0] == self.points:
+                t = self.replay[self.rpos][1]
+                self.rpos += 1
+                if t in runnable:
+                    return t
+                self.diverged += 1
+                return runnable[0]
+            return runnable[0] if must_leave else me
+        if must_leave:
+            return self.rnd.choice(runnable)
+        if len(runnable) > 1 and self.rnd.random() < self.p:
+            return self.rnd.choice([t for t in runnable if t != me] or runnable)
+        return me
+
+    def _hand_over(self, me: int, nxt: int) -> None:
+        if nxt != me:
+            self.switches.append([self.points, nxt])
+            self.current = nxt
+            self.cv.notify_all()
+
+    def _wait_turn(self, me: int) -> None:
+        end = time.time() + self.wait_s
+        while self.current != me and self.broken is None:
+            left = end - time.time()
+            if left <= 0:
+                self.broken = f"thread {me} waited {self.wait_s}s for its turn"
+                self.cv.notify_all()
+                break
+            self.cv.wait(min(left, 1.0))
+        if self.broken is not None:
+            raise SchedBroken(self.broken)
+
+    # -- entry points
+    def begin(self, me: int) -> None:
+        with self.cv:
+            if self.current == -1:
+                self.current = min(self.alive) if self.replay is None or not self.replay or self.replay[0][0] != 0 else self.replay[0][1]
+                if self.replay and self.replay[0][0] == 0:
+                    self.rpos = 1
+                self.switches.append([0, self.current])
+                self.cv.notify_all()
+            self._wait_turn(me)
+
+    def point(self, me: int) -> None:
+        if self.broken is not None:
+            return
+        with self.cv:
+            self.points += 1
+            nxt = self._pick(me, False)
+            if nxt != me:
+                self._hand_over(me, nxt)
+                self._wait_turn(me)
+
+    def block(self, me: int) -> None:
+        """the running thread cannot proceed (a lock is taken): give the token away until something is released"""
+        with self.cv:
+            self.points += 1
+            self.blocked.add(me)
+            nxt = self._pick(me, True)
+            if self.broken is not None:
+                self.cv.notify_all()
+                raise SchedBroken(self.broken)
+            self._hand_over(me, nxt)
+            self._wait_turn(me)
+
+    def released(self) -> None:
+        with self.cv:
+            self.blocked.clear()
+
+    def end(self, me: int) -> None:
+        with self.cv:
+            self.alive.discard(me)
+            self.blocked.discard(me)
+            if self.current == me and self.alive:
+                self.points += 1
+                nxt = self._pick(me, True)
+                if nxt == me:
+                    nxt = min(self.alive)
+                self._hand_over(me, nxt)
+
+
+class SchedLock:
+    """cache_lock under the scheduler: never blocks while holding the token"""
+
+    def __init__(self, real: Any, sched: Sched, tids: dict, inner: Any = None):
+        self._real, self._sched, self._tids, self._inner = real, sched, tids, inner
+
+    def acquire(self, blocking: bool = True, timeout: float = -1) -> bool:
+        me = self._tids.get(threading.get_ident())
+        if me is None:
+            return self._real.acquire(blocking, timeout)
+        while not self._real.acquire(False):
+            if not blocking:
+                return False
+            self._sched.block(me)
+        if self._inner is not None:
+            self._inner._log()
+        return True
+
+    def release(self) -> None:
+        self._real.release()
+        self._sched.released()
+
+    def __enter__(self) -> "SchedLock":
+        self.acquire()
+        return self
+
+    def __exit__(self, *a: Any) -> None:
+        self.release()
+
+    def locked(self) -> bool:
+        return self._real.locked()
+
+
+def run_threads(arg: dict) -> dict:
+    """arg: {"threads": [[CALL]], "mode": "free"|"sched", "seed", "p_switch", "switches": replay | None, "warm": bool,
+            "instrument": bool, "antlr": bool (also trace the antlr4 runtime), "switchinterval": float}
+    -> {"results": [[row]], "warm_results": [[row]] | None, "switches", "points", "broken", "events"?}"""
+    import logging
+    logging.disable(logging.CRITICAL)
+    threading.stack_size(128 * 1024 * 1024)
+    from explorerscript.ssb_converting.decompiler.graph_building import graph_utils as gu
+    import explorerscript.ssb_converting.ssb_compiler  # noqa  (imports happen before any thread starts)
+    import explorerscript.ssb_converting.ssb_decompiler  # noqa
+    import explorerscript.cli.decompile  # noqa
+    import importlib
+    import pkgutil
+    import antlr4
+    import explorerscript
+    for pkg in (explorerscript, antlr4):      # no import may happen while a thread is parked
+        for mi in pkgutil.walk_packages(pkg.__path__, pkg.__name__ + "."):
+            if ".cli." in mi.name or "pygments" in mi.name:
+                continue
+            try:
+                importlib.import_module(mi.name)
+            except Exception:
+                pass
+    progs = arg["threads"]
+    n = len(progs)
+    out: dict = {"results": [None] * n, "warm_results": None, "broken": None}
+
+    def row_of(call: dict, res: dict) -> dict:
+        row: dict = {"digest": digest(res), "summary": {k: res[k] for k in ("error", "site", "msg", "skipped", "stage") if k in res}}
+        if "text" in res:
+            row["summary"]["fallback"] = res["text"].startswith("//?: is-ssb-script")
+        if "input_after" in res:
+            row["input_same"] = res["input_after"] == res["input_before"]
+        return row
+
+    if arg.get("warm"):
+        # the sequential results in this very process (also fills the parsers' shared caches)
+        out["warm_results"] = [[row_of(c, do_call(Session(), c)) for c in p] for p in progs]
+        gc.collect()
+    rec = install() if arg.get("instrument") else None
+    if rec is not None:
+        rec.ev("call", 0)
+    results: list[list] = [[] for _ in range(n)]
+    errors: list[Any] = [None] * n
+
+    if arg.get("mode") == "sched":
+        sched = Sched(n, arg.get("seed", 0), arg.get("p_switch", 0.02), arg.get("switches"))
+        tids: dict[int, int] = {}
+        real_lock = _ORIG["lock"] if rec is not None else gu.cache_lock
+        gu.cache_lock = SchedLock(real_lock, sched, tids, gu.cache_lock if rec is not None else None)
+        names = tuple(os.sep + x for x in TRACED_REPO) + (tuple(os.sep + x for x in TRACED_ANTLR) if arg.get("antlr") else ())
+        known: dict[str, bool] = {}
+
+        def local_trace(frame: Any, event: str, a: Any) -> Any:
+            if event == "line":
+                me = tids.get(threading.get_ident())
+                if me is not None:
+                    sched.point(me)
+            return local_trace
+
+        def global_trace(frame: Any, event: str, a: Any) -> Any:
+            if event != "call":
+                return None
+            fn = frame.f_code.co_filename
+            k = known.get(fn)
+            if k is None:
+                k = fn.endswith(names) and ("explorerscript" in fn or "antlr4" in fn)
+                known[fn] = k
+            return local_trace if k else None
+
+        def worker(i: int) -> None:
+            tids[threading.get_ident()] = i
+            try:
+                sched.begin(i)
+                sys.settrace(global_trace)
+                sess = Session()
+                for c in progs[i]:
+                    results[i].append(row_of(c, do_call(sess, c)))
+            except SchedBroken as e:
+                errors[i] = "sched: " + str(e)
+            except BaseException as e:  # noqa
+                errors[i] = "harness: " + type(e).__name__ + ": " + str(e)[:200]
+            finally:
+                sys.settrace(None)
+                try:
+                    sched.end(i)
+                except Exception:
+                    pass
+
+        ths = [threading.Thread(target=worker, args=(i,), daemon=True) for i in range(n)]
+        for t in ths:
+            t.start()
+        deadline = time.time() + arg.get("budget_s", 120)
+        for t in ths:
+            t.join(max(0.1, deadline - time.time()))
+        if any(t.is_alive() for t in ths):
+            with sched.cv:
+                sched.broken = sched.broken or "threads still running at the end of the time budget"
+                sched.cv.notify_all()
+            for t in ths:
+                t.join(5)
+        out["switches"] = sched.switches
+        out["points"] = sched.points
+        out["broken"] = sched.broken
+        out["diverged"] = sched.diverged
+        gu.cache_lock = real_lock if rec is None else LockProxy(real_lock)
+    else:
+        sys.setswitchinterval(arg.get("switchinterval", 1e-6))
+        barrier = threading.Barrier(n)
+
+        def worker2(i: int) -> None:
+            try:
+                barrier.wait(30)
+                sess = Session()
+                for c in progs[i]:
+                    results[i].append(row_of(c, do_call(sess, c)))
+            except BaseException as e:  # noqa
+                errors[i] = "harness: " + type(e).__name__ + ": " + str(e)[:200]
+
+        ths = [threading.Thread(target=worker2, args=(i,), daemon=True) for i in range(n)]
+        for t in ths:
+            t.start()
+        deadline = time.time() + arg.get("budget_s", 120)
+        for t in ths:
+            t.join(max(0.1, deadline - time.time()))
+        if any(t.is_alive() for t in ths):
+            out["broken"] = "threads still running at the end of the time budget"
+        sys.setswitchinterval(0.005)
+    out["results"] = results
+    out["errors"] = errors
+    if rec is not None:
+        gc.collect()
+        out["events"] = rec.events
+        out["problems"] = rec.problems
+    return out
